@@ -57,6 +57,12 @@ S5 == {Struct("S", <<Field("A", "", {}, Inner), Field("B", "", {}, Ptr(Inner))>>
        Struct("S", <<Field("A", "", {}, Slice(Inner)), Field("B", "b", {"omitempty"}, Ptr(Inner)), Field("C", "", {}, Ptr(Inner))>>),
        Struct("S", <<Embed("Emb", "value", Emb), Field("P", "", {}, Ptr(Emb)), Field("Q", "", {}, Slice(Ptr(Emb)))>>),
        Slice(Struct("S", <<Field("A", "", {}, Inner), Field("B", "", {}, Ptr(Inner))>>))}
+\* several fields carrying byte-identical tags without a name (",omitempty" / ",omitzero" / ","): each keeps
+\* ITS OWN Go name as the property name, in this struct and in nested ones
+S6 == {Struct("S", <<Field("A", "", {"omitempty"}, Prim("int8")), Field("B", "", {"omitempty"}, Prim("string")),
+                     Field("C", "", {"omitzero"}, Prim("bool")), Field("D", "", {"omitzero"}, Slice(Prim("string")))>>),
+       Struct("S", <<Field("Count", "", {"omitzero"}, Prim("int")), Field("Label", "", {"omitzero"}, Prim("string")),
+                     Field("In", "", {}, Struct("Lim", <<Field("Lo", "", {"omitempty"}, Prim("uint8")), Field("Hi", "", {"omitempty"}, Prim("float64"))>>))>>)}
 \* one JSON name claimed by two fields (dominant-field rule on JSON names), and a tagged embedded field
 S4 == {Struct("S", <<Field("P", "b", {}, Prim("int8")), Embed("Emb", "value", Emb)>>),          \* outer "b" (depth 0) vs Emb.B "b" (depth 1)
        Struct("S", <<Embed("Emb", "value", Emb), Field("P", "b", {}, Prim("int8"))>>),
@@ -115,7 +121,7 @@ OCases == {[t |-> t, ign |-> ign, tsn |-> "none"] : t \in ODesc, ign \in BOOLEAN
 
 Types(z) ==
   CASE Family = "T" -> IF K >= 2 THEN UNION {T1, T2, T3} ELSE UNION {T1, T2}
-    [] Family = "S" -> IF K >= 2 THEN UNION {S1, S2, S3, S5} ELSE UNION {S1, S3, S5}
+    [] Family = "S" -> IF K >= 2 THEN UNION {S1, S2, S3, S5, S6} ELSE UNION {S1, S3, S5, S6}
     [] Family = "X" -> S4
     [] Family = "O" -> OCases
 
